@@ -293,6 +293,85 @@ func runC20(c *Ctx) {
 		}
 	}
 
+	// R10: the expiry that is stored is exactly the expiry the holder keeps: nothing on
+	// the way to the lock file reduces ExpiresAt's precision (a holder whose in-memory
+	// lease outlives the stored record shares the lease with whoever acquires in between)
+	{
+		const rule = "R10-stored-expiry-is-exact"
+		nUse := 0
+		isExp := func(v ssa.Value) bool {
+			for _, o := range origins(v) {
+				switch x := o.(type) {
+				case *ssa.UnOp:
+					if fa, ok := x.X.(*ssa.FieldAddr); ok && fieldAddrName(fa) == "Lease.ExpiresAt" {
+						return true
+					}
+				case *ssa.Field:
+					if fieldName(x.X.Type(), x.Field) == "Lease.ExpiresAt" {
+						return true
+					}
+				case *ssa.Call:
+					// t.UTC(), t.In(loc), t.Local() keep the instant
+					switch calleeName(x) {
+					case "(time.Time).UTC", "(time.Time).In", "(time.Time).Local":
+						if len(x.Call.Args) > 0 && func() bool {
+							for _, oo := range origins(x.Call.Args[0]) {
+								switch y := oo.(type) {
+								case *ssa.UnOp:
+									if fa, ok := y.X.(*ssa.FieldAddr); ok && fieldAddrName(fa) == "Lease.ExpiresAt" {
+										return true
+									}
+								case *ssa.Field:
+									if fieldName(y.X.Type(), y.Field) == "Lease.ExpiresAt" {
+										return true
+									}
+								}
+							}
+							return false
+						}() {
+							return true
+						}
+					}
+				}
+			}
+			return false
+		}
+		for _, fn := range c.P.ProdFuncs() {
+			for _, call := range calls(fn) {
+				nm := calleeName(call)
+				a := call.Common().Args
+				anyExp := false
+				for _, x := range a {
+					if isExp(x) {
+						anyExp = true
+					}
+				}
+				if anyExp {
+					nUse++
+				}
+				if len(a) == 0 || !isExp(a[0]) {
+					continue
+				}
+				switch nm {
+				case "(time.Time).After", "(time.Time).Before", "(time.Time).Sub", "(time.Time).IsZero", "(time.Time).Equal", "(time.Time).UTC", "(time.Time).In", "(time.Time).Local", "(time.Time).String":
+					nUse++
+				case "(time.Time).Truncate", "(time.Time).Round", "(time.Time).Unix", "(time.Time).UnixMilli":
+					nUse++
+					c.fail(rule, fnName(fn)+": "+nm+" applied to Lease.ExpiresAt", c.pos(call), "the lease expiry is reduced in precision: the stored or compared expiry can precede the one the holder relies on")
+				case "(time.Time).Format", "(time.Time).AppendFormat":
+					nUse++
+					layout := ""
+					if len(a) > 1 {
+						layout, _ = constString(a[len(a)-1])
+					}
+					c.check(strings.Contains(layout, ".999999999") || strings.Contains(layout, ".000000000"), rule, fnName(fn)+": Lease.ExpiresAt is formatted with nanosecond precision", c.pos(call), "layout keeps fractional seconds",
+						"the stored expiry drops the fractional second: it is up to a second earlier than the expiry the holder keeps, so a second instance can take the lease over while the first still considers it valid")
+				}
+			}
+		}
+		c.floor(rule, nUse, 1, "uses of Lease.ExpiresAt")
+	}
+
 	// R8: generation continuity across release (F6)
 	if acq != nil && rel != nil {
 		const rule = "R8-generation-continuity"
